@@ -36,6 +36,9 @@ SHAPES = [
     ("90", "100", "90", "100", "41.7"),     # 8 awkward volume
     ("100", "100", "100", "100", "11"),     # 9 25% -> 2.75, 33% -> 3.63: rounding instead of truncating would overshoot
     ("100", "100", "100", "100", "4"),      # 10 one unit of liquidity per bar at 25%: orders fill in many pieces
+    ("90", "90", "90", "90", "11"),         # 11 fractional liquidity at a price whose products need rounding at qp=0
+    ("33.37", "33.37", "33.37", "33.37", "11"),  # 12 awkward price
+    ("300", "300", "300", "300", "16"),     # 13 gap up on a thin bar: 4 units of liquidity at 25%, orders short of funds
 ]
 
 
@@ -369,7 +372,7 @@ def alphabet_lend(cfg):
 def alphabet_liq(cfg):
     """Liquidity-focused alphabet: thin bars (1, 2.5, 2.75, 10 units of liquidity at 25%), competing orders, cancels."""
     u = unit(cfg)
-    A = [("bar", 0, si) for si in (10, 0, 9, 1, 4)]
+    A = [("bar", 0, si) for si in (10, 0, 9, 1, 4, 11, 12, 13)]
     for side in ("B", "S"):
         for n in (1, 2, 3):
             A.append(("ord", "lim", side, 0, str(n * u), "100", None, False, False))
